@@ -5,7 +5,7 @@ import tempfile
 from harness import tlc
 
 BASE = dict(NT=2, NW=2, MaxRep=2, MaxRuns=2, MaxFail=1, Kind="pause", Async=True, Wait=False, Del=True,
-            FailB=1, ExtB=0, CKind="script", K=0, EmptyExit=False, MayExhaust=False, R3=True, R13=True, R8=True, Sjwd=True, SpecRm=False, K2=0)
+            FailB=1, ExtB=0, CKind="script", K=0, EmptyExit=False, MayExhaust=False, R3=True, R13=True, R8=True, Sjwd=True, SpecRm=False, K2=0, Linger=False)
 
 ALL_INVARIANTS = {
     "C01": ["WorkerBudget", "IdsInSequence", "LifeCycle", "ResumeOnlyPaused", "CallbackProtocol"],
@@ -59,6 +59,7 @@ def mc_configs(tier):
     c["ask_backend"] = dict(BASE, NT=3, Kind="stop", MaxRuns=1, FailB=1, Sjwd=False)
     c["ask_backend_pause"] = dict(BASE, NT=2, Kind="pause", FailB=0, Sjwd=False)
     c["spec_removal"] = dict(BASE, NT=2, Kind="pause", FailB=0, SpecRm=True)
+    c["ask_linger"] = dict(BASE, NT=4, NW=3, Kind="stop", MaxRuns=1, MaxRep=1, FailB=0, Sjwd=False, Linger=True)
     c["pbt_3t"] = dict(BASE, NT=3, Kind="pbt", MaxRuns=1, FailB=0)
     if tier == "thorough":
         c["pause_3t"] = dict(BASE, NT=3)
